@@ -397,7 +397,7 @@ impl Opts {
         Opts {
             bound: None,
             threads,
-            max_exec: None,
+            max_exec: std::env::var("VERIF_MAX_EXEC").ok().and_then(|s| s.parse().ok()),
             wall_cap: Duration::from_secs(3600),
             seed,
         }
